@@ -34,7 +34,8 @@ SPELLINGS = {
     "M": {"YYYYMm": lambda y, n: "%04dM%d" % (y, n), "YYYYMmm": lambda y, n: "%04dM%02d" % (y, n), "YYYY-MM": lambda y, n: "%04d-%02d" % (y, n),
           "YYYY-M": lambda y, n: "%04d-%d" % (y, n), "YYYY-Mxx": lambda y, n: "%04d-M%02d" % (y, n), "YYYY-Mx": lambda y, n: "%04d-M%d" % (y, n)},
     "W": {"YYYYWw": lambda y, n: "%04dW%d" % (y, n), "YYYYWww": lambda y, n: "%04dW%02d" % (y, n), "YYYY-Wxx": lambda y, n: "%04d-W%02d" % (y, n)},
-    "D": {"YYYYDd": lambda y, n: "%04dD%d" % (y, n), "YYYYDddd": lambda y, n: "%04dD%03d" % (y, n), "YYYY-Dx": lambda y, n: "%04d-D%d" % (y, n), "YYYY-Dxxx": lambda y, n: "%04d-D%03d" % (y, n),
+    "D": {"YYYYDd": lambda y, n: "%04dD%d" % (y, n), "YYYYDdd": lambda y, n: "%04dD%02d" % (y, n), "YYYYDddd": lambda y, n: "%04dD%03d" % (y, n),
+          "YYYY-Dx": lambda y, n: "%04d-D%d" % (y, n), "YYYY-Dxx": lambda y, n: "%04d-D%02d" % (y, n), "YYYY-Dxxx": lambda y, n: "%04d-D%03d" % (y, n),
           "YYYY-MM-DD": lambda y, n: (datetime.date(y, 1, 1) + datetime.timedelta(days=n - 1)).isoformat()},
 }
 
@@ -52,7 +53,7 @@ def expected(fmt, ind, y, n):
 
 
 def work(jobs):
-    """jobs: list of (ind, spelling name, fmt, y0, y1)"""
+    """jobs: list of (ind, spelling name, fmt, y0, y1, extra years)"""
     warnings.filterwarnings("ignore")
     import pandas as pd
     from vtlengine import run
@@ -63,12 +64,12 @@ def work(jobs):
     comps = [eng.comp("Id_1", "Integer", "I"), eng.comp("Me_1", "Time_Period")]
     S = eng.structures(eng.structure("DS_1", comps))
     pyrepr = {"vtl": "vtl_representation", "sdmx_reporting": "sdmx_reporting_representation", "sdmx_gregorian": "sdmx_gregorian_representation", "natural": "natural_representation"}
-    for ind, sp, fmt, y0, y1 in jobs:
+    for ind, sp, fmt, y0, y1, extra in jobs:
         f = SPELLINGS[ind][sp]
-        periods = [(y, n) for y in range(y0, y1 + 1) for n in numbers(ind, y)]
+        periods = [(y, n) for y in sorted(set(range(y0, y1 + 1)) | set(extra)) for n in numbers(ind, y)]
         texts = [f(y, n) for y, n in periods]
         df = pd.DataFrame({"Id_1": range(len(texts)), "Me_1": pd.Series(texts, dtype="object")})
-        case = dict(indicator=ind, spelling=sp, format=fmt, years=[y0, y1], example=texts[0])
+        case = dict(indicator=ind, spelling=sp, format=fmt, years=[y0, y1], extra_years=list(extra), example=texts[0])
         part.evaluations += len(texts)
         part.nontrivial.update("%s:%s:%s:%d:%d" % (ind, sp, fmt, y, n) for y, n in periods[:: max(1, len(periods) // 400)])
         part.hist["bulk_runs"] += 1
@@ -109,9 +110,24 @@ def work(jobs):
                 part.fail("round_trip_changes_value:%s:%s" % (ind, fmt), dict(case, rendered=bad2[0][0], again=bad2[0][1]), "rendered %r fed back gives %r" % bad2[0])
         except Exception as e:  # noqa
             part.fail("round_trip_rejected:%s:%s:%s" % (ind, fmt, eng.classify_exc(e).split(":")[0]), dict(case, rendered=out.get(0)), "rendered values rejected as input: %s" % str(e)[:200])
+        # (5) the spelling denotes the same period as the first documented spelling, observed inside a script (once per spelling)
+        first = sorted(SPELLINGS[ind])[0]
+        if fmt == "vtl" and sp != first:
+            comps2 = [eng.comp("Id_1", "Integer", "I"), eng.comp("Me_1", "Time_Period"), eng.comp("Me_2", "Time_Period")]
+            df3 = pd.DataFrame({"Id_1": range(len(texts)), "Me_1": pd.Series(texts, dtype="object"), "Me_2": pd.Series([SPELLINGS[ind][first](y, n) for y, n in periods], dtype="object")})
+            try:
+                r3 = run(script="R <- DS_1 [calc eq := Me_1 = Me_2];", data_structures=eng.structures(eng.structure("DS_1", comps2)), datapoints={"DS_1": df3})["R"].data
+                ne = r3[r3["eq"] != True]  # noqa: E712
+                part.hist["same_period_in_script_compared"] += len(r3)
+                if len(ne):
+                    i0 = int(ne["Id_1"].iloc[0])
+                    part.fail("spellings_denote_different_periods:%s:%s" % (ind, sp), dict(case, a=texts[i0], b=SPELLINGS[ind][first](*periods[i0]), n_bad=len(ne)), "%r = %r is not true inside a script (%d of %d)" % (texts[i0], SPELLINGS[ind][first](*periods[i0]), len(ne), len(r3)))
+            except Exception as e:  # noqa
+                part.fail("spellings_compare_raises:%s:%s" % (ind, sp), case, "%s: %s" % (type(e).__name__, str(e)[:200]))
         # (4) Python implementation on a stride of the periods (all of them in the thorough tier through smaller year ranges)
         stride = max(1, len(texts) // 600)
-        for i in range(0, len(texts), stride):
+        century = [i for i, (y, n) in enumerate(periods) if y % 100 == 0 and ind == "D" and n in (59, 60, 61, 365, 366)]
+        for i in sorted(set(range(0, len(texts), stride)) | set(century)):
             try:
                 py = getattr(TimePeriodHandler(check_time_period(texts[i])), pyrepr[fmt])()
             except Exception as e:  # noqa
@@ -171,11 +187,12 @@ def _dispatch(fname, args):
 
 def run(ctx):
     y0, y1 = (1996, 2032) if ctx.quick else (1900, 2100)
-    ctx.rule = ("EXHAUSTIVE for years %d-%d: every valid period of every indicator (W53 / D366 only where the ISO / Gregorian calendar has them) x every documented input spelling x 4 output formats, "
+    extra = (1900, 1901, 2000, 2099, 2100)   # century years (1900 / 2100 not leap, 2000 leap) are always included
+    ctx.rule = ("EXHAUSTIVE for years %d-%d (plus 1900, 1901, 2000, 2099, 2100): every valid period of every indicator (W53 / D366 only where the ISO / Gregorian calendar has them) x every documented input spelling x 4 output formats, "
                 "evaluated in bulk (one dataset per indicator, spelling and format), plus a Hypothesis sample of years 1-9999; every (period, spelling, format) triple is a distinct non-trivial case "
                 "(distinct_nontrivial counts a 1/N stride of them to bound memory)" % (y0, y1))
     ctx.exhaustive = True
-    jobs = [(ind, sp, fmt, y0, y1) for ind in "ASQMWD" for sp in SPELLINGS[ind] for fmt in FORMATS]
+    jobs = [(ind, sp, fmt, y0, y1, extra) for ind in "ASQMWD" for sp in SPELLINGS[ind] for fmt in FORMATS]
     jobs.sort(key=lambda j: -{"D": 6, "W": 3, "M": 2}.get(j[0], 1))
     shards = [jobs[k::15] for k in range(15)]
     ctx.merge(core.pmap("checks.c21", "_dispatch", [("work", (s,)) for s in shards] + [("work_far_years", (ctx.seed * 1009, 30 if ctx.quick else 400))], procs=16))
@@ -188,7 +205,7 @@ def replay(ctx, path):
     import json
     c = json.load(open(path))["case"]
     if "indicator" in c:
-        p = work([(c["indicator"], c["spelling"], c["format"], c["years"][0], c["years"][1])])
+        p = work([(c["indicator"], c["spelling"], c["format"], c["years"][0], c["years"][1], tuple(c.get("extra_years", ())))])
     else:
         p = work_far_years(1, 30)
     print("replay failures:", {k: v[2] for k, v in p.failures.items()})
